@@ -10,7 +10,9 @@
    keeps uint64 for values beyond MaxInt64; D8 byte strings are copied;
    D11 embedded pointers on a field route are allocated on demand; D14
    unsupported kinds are errors; D15 a zero-length byte array accepts null;
-   D16 a map type with a MapMorphism entry unmarshals like any map. *)
+   D16 a map type with a MapMorphism entry unmarshals like any map;
+   D20 a transform hands its wire-type machine the item without the transform's
+   own tag (the tag named the transform's type, not its serial form). *)
 From Coq Require Import List ZArith Bool Lia.
 Require Import Tok GoVal JsonFloat FloatConv Marshal.
 Import ListNotations.
@@ -178,6 +180,13 @@ Section U.
     | _, _, _ => v
     end.
 
+  (* the first token without the entry's own tag *)
+  Definition untag_own (tg : option Z) (ts : list token) : list token :=
+    match tg, ts with
+    | Some t, Tok v (Some t') :: r => if t =? t' then Tok v None :: r else ts
+    | _, _ => ts
+    end.
+
   Definition ubind (r : ures) (k : gval -> list token -> ures) : ures :=
     match r with UOk v rest => k v rest | other => other end.
 
@@ -323,7 +332,7 @@ Section U.
     | S f =>
       match ae_kind e with
       | ETransform kind wire =>
-          ubind (unmarshal_bare f wire (zero_of wire) ts)
+          ubind (unmarshal_bare f wire (zero_of wire) (untag_own (ae_tag e) ts))
                 (fun w r => match tr_bwd kind w with Some x => UOk x r | None => UErr (S (length r)) end)
       | EStruct fields =>
           match ts with
@@ -436,7 +445,7 @@ Inductive utop :=
 Definition unmarshal_top (E : tenv) (A : atlas) (t : gtype) (ts : list token) : utop :=
   if reset_fails A 20 t then UTBindErr
   else
-    match unmarshal E A (50 + 4 * length ts) t (zero 50 E t) ts with
+    match unmarshal E A (64 + 16 * length ts) t (zero 50 E t) ts with
     | UOk v rest => UTDone (length ts - length rest) v
     | UErr remaining => UTErr (S (length ts - remaining))
     | UStarved => UTStarved
